@@ -7,6 +7,17 @@
 // half's f16 conversion) on 9 symbolic bytes of symbolic length: loop-free apart from the fixed-size
 // reads, full domain => complete for the head level.
 
+// Everything the harnesses need is imported here explicitly (explicit imports shadow the glob import of
+// the hook), so that a change to the `use` lines of the real module cannot break this file.
+#[allow(unused_imports)]
+use ciborium::value::Integer;
+#[allow(unused_imports)]
+use ciborium_io::Read as _;
+#[allow(unused_imports)]
+use ciborium_ll::{simple, Decoder, Header};
+#[allow(unused_imports)]
+use core::convert::TryFrom;
+
 #[derive(Clone, Copy)]
 pub struct SpecHead {
   pub mt: u8,
@@ -176,8 +187,12 @@ fn integer_conversions_match_assumed_contract() {
   let w: i128 = kani::any();
   let in_range = w >= -(1i128 << 64) && w < (1i128 << 64);
   match Integer::try_from(w) {
-    Ok(x) => assert!(in_range && i128::from(x) == w),
-    Err(_) => assert!(!in_range),
+    Ok(x) => {
+      assert!(in_range && i128::from(x) == w);
+    }
+    Err(_) => {
+      assert!(!in_range);
+    }
   }
 }
 
